@@ -1,9 +1,12 @@
 import RscelModel.Model.VM
 /-
 Built-in functions and type constructors with their `#[dispatch]` overload resolution
-(`rscel-macro/src/types/dispatch_*.rs`): arguments are padded with Null up to the widest overload,
-more arguments than that is an Argument error, the first overload whose (this, args…) patterns match
-runs, otherwise an Argument error.  A function declared without `this` requires `this == Null`.
+(`rscel-macro/src/types/dispatch_*.rs`): the first overload whose receiver pattern matches `this`
+(a function declared without `this` requires `this == Null`), whose number of parameters is the number
+of arguments passed and whose parameter patterns match the arguments runs; otherwise an Argument error.
+(The generated code pads the arguments with Null up to the widest overload and answers "too many
+arguments" beyond that, also an Argument error; since every arm is guarded by the number of arguments
+actually passed, the padding is never observable and is not modelled.)
 -/
 namespace Rscel
 
@@ -25,27 +28,22 @@ def isNull : Val → Bool
   | .null => true
   | _ => false
 
+/-- One pattern per argument, same length. -/
 def argsMatch : List Tag → List Val → Bool
-  | [], vs => vs.all isNull
-  | _ :: _, [] => false
+  | [], [] => true
   | t :: ts, v :: vs => t.matches v && argsMatch ts vs
+  | _, _ => false
 
 def Overload.accepts (o : Overload) (this : Val) (args : List Val) : Bool :=
   (match o.this with
    | none => isNull this
    | some t => t.matches this) && argsMatch o.args args
 
-def padNull (n : Nat) (l : List Val) : List Val := l ++ List.replicate (n - l.length) .null
-
 /-- The generated `dispatch` function. -/
 def dispatch (os : List Overload) (this : Val) (args : List Val) : Val :=
-  let maxArgs := (os.map (fun o => o.args.length)).foldl max 0
-  if args.length > maxArgs then .err .argument
-  else
-    let padded := padNull maxArgs args
-    match os.find? (fun o => o.accepts this padded) with
-    | some o => o.run this padded
-    | none => .err .argument
+  match os.find? (fun o => o.accepts this args) with
+  | some o => o.run this args
+  | none => .err .argument
 
 def sizeOverloads : List Overload :=
   [ ⟨some .str, [], fun t _ => match t with | .str s => .uint (utf8Len s) | _ => .err .internal⟩,
@@ -107,22 +105,24 @@ def parseNatDigits : List Char → Option Nat
   | [] => none
   | cs => cs.foldlM (fun acc c => (digitVal c).map (fun d => acc * 10 + d)) 0
 
+/-- One optional sign, then digits only. -/
+def parseSigned : Str → Option Int
+  | '-' :: rest => (parseNatDigits rest).map (fun n => -(n : Int))
+  | '+' :: rest => (parseNatDigits rest).map (fun n => (n : Int))
+  | cs => (parseNatDigits cs).map (fun n => (n : Int))
+
 /-- Rust `i64::from_str`: one optional sign, digits, range check. -/
 def parseI64 (s : Str) : Option Int :=
-  let r : Option Int :=
-    match s with
-    | '-' :: rest => (parseNatDigits rest).map (fun n => -(n : Int))
-    | '+' :: rest => (parseNatDigits rest).map (fun n => (n : Int))
-    | cs => (parseNatDigits cs).map (fun n => (n : Int))
-  r.bind fun i => if inI64 i then some i else none
+  (parseSigned s).bind fun i => if inI64 i then some i else none
+
+/-- One optional `+`, then digits only. -/
+def parseUnsigned : Str → Option Nat
+  | '+' :: rest => parseNatDigits rest
+  | cs => parseNatDigits cs
 
 /-- Rust `u64::from_str`: optional `+`, digits, range check. -/
 def parseU64 (s : Str) : Option Nat :=
-  let r :=
-    match s with
-    | '+' :: rest => parseNatDigits rest
-    | cs => parseNatDigits cs
-  r.bind fun n => if n ≤ u64Max then some n else none
+  (parseUnsigned s).bind fun n => if n ≤ u64Max then some n else none
 
 def natToStr (n : Nat) : Str := (toString n).toList
 def intToStr (i : Int) : Str := (toString i).toList
@@ -147,13 +147,17 @@ def uintOverloads : List Overload :=
     ⟨none, [.str], fun _ a => match a with
       | .str s :: _ => (match parseU64 s with | some n => .uint n | none => .err .value) | _ => .err .internal⟩ ]
 
+/-- UTF-8 encoding of a string (`String::into_bytes`). -/
+def utf8Enc (s : Str) : List UInt8 := (String.ofList s).toUTF8.data.toList
+
+/-- UTF-8 validation + decoding (`String::from_utf8`). -/
+def utf8Decode (b : List UInt8) : Option Str :=
+  (ByteArray.utf8Decode? (ByteArray.mk b.toArray)).map Array.toList
+
 def bytesOverloads : List Overload :=
   [ ⟨none, [.str], fun _ a => match a with
-      | .str s :: _ => .bytes (String.ofList s).toUTF8.toList | _ => .err .internal⟩,
+      | .str s :: _ => .bytes (utf8Enc s) | _ => .err .internal⟩,
     ⟨none, [.bytes], fun _ a => match a with | v :: _ => v | [] => .err .internal⟩ ]
-
-def utf8Decode (b : List UInt8) : Option Str :=
-  (String.fromUTF8? (ByteArray.mk b.toArray)).map String.toList
 
 end Rscel
 
@@ -241,11 +245,13 @@ def plainFuncs (now : Int) : List (String × (Val → List Val → Val)) :=
 def dispatchFuncs : List (String × List Overload) :=
   [ ("size", sizeOverloads), ("sort", sortOverloads) ]
 
-/-- Function table from plain functions, dispatch tables and an extension list. -/
-def mkBuiltins (X : ConvExt) (now : Int) (extra : List (String × List Overload)) : Builtins where
+/-- Function table from plain functions, dispatch tables and the extension lists
+    (`Strings.lean`, `Math.lean`; assembled in `Conv.lean`). -/
+def mkBuiltins (X : ConvExt) (now : Int) (extra : List (String × List Overload))
+    (extraPlain : List (String × (Val → List Val → Val)) := []) : Builtins where
   func name :=
     let n := String.ofList name
-    match (plainFuncs now).find? (·.1 == n) with
+    match (plainFuncs now ++ extraPlain).find? (·.1 == n) with
     | some p => some p.2
     | none =>
       match (dispatchFuncs ++ extra).find? (·.1 == n) with
